@@ -132,6 +132,40 @@ pub fn parse_template_args(input: &[LexToken]) -> ParseResult<'_, Vec<Expression
     }
 }
 
+/// Cheap test for if a < could start the template arguments of a call
+///
+/// A call needs a > directly followed by ( on the same bracket level as the <
+/// Without one the < is a comparison and there is no need to speculatively parse template arguments
+/// This keeps expressions with many comparison operators from being parsed again and again
+fn could_be_template_call(input: &[LexToken]) -> bool {
+    if !matches!(
+        input.first(),
+        Some(LexToken(Token::LeftAngleBracket(_), _))
+    ) {
+        return true;
+    }
+
+    let mut depth = 0u32;
+    for pair in input[1..].windows(2) {
+        match pair[0].0 {
+            Token::LeftParen | Token::LeftSquareBracket | Token::LeftBrace => depth += 1,
+            Token::RightParen | Token::RightSquareBracket | Token::RightBrace => {
+                if depth == 0 {
+                    return false;
+                }
+                depth -= 1;
+            }
+            Token::Semicolon => return false,
+            Token::RightAngleBracket(_) if depth == 0 && pair[1].0 == Token::LeftParen => {
+                return true;
+            }
+            _ => {}
+        }
+    }
+
+    false
+}
+
 fn expr_p1<'t>(
     input: &'t [LexToken],
     st: &mut SymbolTable,
@@ -182,7 +216,7 @@ fn expr_p1<'t>(
         let start_input = input;
 
         // Only a name can be given template arguments - after anything else a < is the comparison operator
-        let (input, template_args) = if allow_template_args {
+        let (input, template_args) = if allow_template_args && could_be_template_call(input) {
             parse_template_args(input).rebase_fail_point(start_input)?
         } else {
             (input, Vec::new())
